@@ -190,7 +190,7 @@ def monitor(script):
         # ---- C01: linked ancestry, maximal work
         ids_at = []
         ok_at = True
-        for k in range(0, d.h + 1):
+        for k in range(min(d.at) if d.at else 0, d.h + 1):
             v = d.at.get(k)
             if v is None or not v.lstrip("-").isdigit():
                 if not latest_mode:
